@@ -92,6 +92,11 @@ func CallbackClassics() []*chanmodel.Scenario {
 		withCbs(scn([]int{1}, nil, []op{recv2(0), recv2(0)}), chanop(send(0, 23), false), chanop(cls(0), false)),
 		// callbacks that spawn goroutines and echo values while everybody is parked
 		withCbs(scn([]int{0}, nil, []op{recv2(0)}, []op{send(0, 31)}), chanmodel.Callback{Kind: "spawn", G: 1}, chanmodel.Callback{Kind: "echo"}),
+		// a callback's receive wakes a parked sender that at once receives from the same channel (re-entrancy)
+		withCbs(scn([]int{1}, []int{1}, []op{send(0, 41)}, []op{sleep(1), send(0, 42), recv2(0)}), chanop(recv2(0), false)),
+		// a callback closes a channel with several parked parties; the first one woken at once uses the channel again
+		withCbs(scn([]int{0}, []int{1}, []op{send(0, 51), recv2(0)}, []op{send(0, 52)}), chanop(cls(0), false)),
+		withCbs(scn([]int{0}, []int{1}, []op{recv2(0), sel(-1, -1, 0, 53, -1, 0, true)}, []op{recv2(0)}), chanop(cls(0), true)),
 		// exposing a function switches the deadlock report off
 		withCbs(scn([]int{0}, nil, []op{base("ident"), recv(0)}), chanmodel.Callback{Kind: "echo"}),
 	}
